@@ -393,20 +393,22 @@ class Cursor:
     def _select(self, ast, pos, named, outer):
         _, distinct, items, sources, where, order = ast
         srcs = [self._source_rows(s, pos, named, outer) for s in sources]
-        # nested-loop join in source order
-        combos = [[]]
-        for idx, (alias, cols, rows) in enumerate(srcs):
-            on = sources[idx][3]
+        ons = [s[3] for s in sources if s[3] is not None]
+        # Nested-loop join.  The order of a join's output is unspecified in SQL; like SQLite's planner we drive
+        # from the table that the WHERE clause pins with `col = <parameter>` (for gffutils' relation queries: the
+        # relations table), so that code relying on "duplicates are adjacent" style accidents is exposed.
+        order_ix = list(range(len(srcs)))
+        if len(srcs) == 2 and where is not None:
+            pinned = _pinned_aliases(where)
+            if srcs[1][0] in pinned and srcs[0][0] not in pinned:
+                order_ix = [1, 0]
+        combos = [[None] * len(srcs)]
+        for idx in order_ix:
             new = []
             for c in combos:
-                for r in rows:
-                    cand = c + [r]
-                    if on is not None:
-                        sc = _Scope(outer)
-                        for (a2, c2, _), r2 in zip(srcs, cand):
-                            sc.add(a2, c2, r2)
-                        if self._truth(on, sc, pos, named) is not True:
-                            continue
+                for r in srcs[idx][2]:
+                    cand = list(c)
+                    cand[idx] = r
                     new.append(cand)
             combos = new
         scopes = []
@@ -414,6 +416,13 @@ class Cursor:
             sc = _Scope(outer)
             for (a2, c2, _), r2 in zip(srcs, c):
                 sc.add(a2, c2, r2)
+            ok = True
+            for on in ons:
+                if self._truth(on, sc, pos, named) is not True:
+                    ok = False
+                    break
+            if not ok:
+                continue
             if where is not None and self._truth(where, sc, pos, named) is not True:
                 continue
             scopes.append(sc)
@@ -586,6 +595,18 @@ class Cursor:
                 keep.append(r)
         t.rows = keep
         self.rowcount = n
+
+
+def _pinned_aliases(e):
+    """table aliases that a conjunct of the WHERE clause constrains with `alias.col = <param>`"""
+    out = set()
+    if e[0] == "and":
+        return _pinned_aliases(e[1]) | _pinned_aliases(e[2])
+    if e[0] == "cmp" and e[1] == "=":
+        for a, b in ((e[2], e[3]), (e[3], e[2])):
+            if a[0] == "col" and a[1] is not None and b[0] in ("param", "nparam"):
+                out.add(a[1])
+    return out
 
 
 def _row_before(k1, k2, descs):
